@@ -346,6 +346,23 @@ func main() {
 					return
 				}
 				r.Event("blob-round-trips")
+				if vi == 1 && ci%2 == 0 {
+					// the same, under a document whose GLOBAL statement (listed first, trusting somebody else) is not the one asked for
+					{
+						ts.Put("ca:somebody-else", decoyRoot.Cert)
+						v2, err2 := verifier.NewVerifierWithOptions(ts, verifier.VerifierOptions{BlobTrustPolicy: lib.BlobPolicyNamedAfterGlobal(sv, stores, ids, "ca:somebody-else"),
+							RevocationCodeSigningValidator: lib.OKRev{}, RevocationTimestampingValidator: lib.OKRev{}})
+						if err2 != nil {
+							panic(err2)
+						}
+						d2, out2, errNamed := notation.VerifyBlob(ctx, v2, readerOf(ci+vi+7, content), sigBytes, vo)
+						r.Event("blob-round-trips-under-a-named-statement-listed-after-the-global-one")
+						if errNamed != nil || out2 == nil || d2.Digest != desc.Digest {
+							r.Violation(sig("verify-failed"), fmt.Sprintf("%s: VerifyBlob under the named statement p (listed after a global statement that trusts somebody else) failed: %v", id, errNamed), wit)
+							return
+						}
+					}
+				}
 				annOK := sameMap(desc.Annotations, want.Annotations) || (len(desc.Annotations) == 0 && len(want.Annotations) == 0)
 				if desc.MediaType != want.MediaType || desc.Digest != want.Digest || desc.Size != want.Size || !annOK {
 					r.Violation(sig("returned-blob-descriptor"), fmt.Sprintf("%s: VerifyBlob returned descriptor {%q %s %d %v}, the verified blob is {%q %s %d %v}", id, desc.MediaType, desc.Digest, desc.Size, desc.Annotations, want.MediaType, want.Digest, want.Size, want.Annotations), wit)
